@@ -7,7 +7,8 @@ CLASSES = {
     "L_bf": "bf",
     "L_hex": "acdABCDF",
     "L_nrt": "nrt",
-    "L_other": "gzGZ_xUNqo",
+    "L_x": "xX",
+    "L_other": "gzGZ_UNqo",
     "D0": "0",
     "D19": "1957",
     "Minus": "-",
